@@ -135,6 +135,42 @@ fn single_literal_change(orig: &Value, cor: &Value) -> Option<(&'static str, usi
     found
 }
 
+/// byte offsets of the ASCII digits inside `"m":`, `"n":`, `"colptr":[..]`, `"rowval":[..]`
+/// and the `"cones":[..]` section of a saved problem
+fn structural_digits(bytes: &[u8]) -> Vec<usize> {
+    let text = String::from_utf8_lossy(bytes);
+    let mut out = vec![];
+    for key in ["\"m\":", "\"n\":", "\"colptr\":[", "\"rowval\":[", "\"cones\":["] {
+        let mut from = 0;
+        while let Some(off) = text[from..].find(key) {
+            let start = from + off + key.len();
+            let mut k = start;
+            let mut depth = if key.ends_with('[') { 1 } else { 0 };
+            while k < bytes.len() {
+                let c = bytes[k];
+                if c == b'[' {
+                    depth += 1;
+                } else if c == b']' {
+                    if depth <= 1 {
+                        break;
+                    }
+                    depth -= 1;
+                } else if depth == 0 && !c.is_ascii_digit() {
+                    break;
+                }
+                if c.is_ascii_digit() {
+                    out.push(k);
+                }
+                k += 1;
+            }
+            from = start;
+        }
+    }
+    out.sort();
+    out.dedup();
+    out
+}
+
 /// same document except (possibly) inside "settings", which must still be an object
 /// with the same keys and value types (a well-formed settings block)
 fn differs_only_in_settings(orig: &Value, cor: &Value) -> bool {
@@ -782,6 +818,19 @@ pub fn run(tier: Tier) -> RunOutcome {
         for _ in 0..40 {
             let p = choose("subst_at", len as u32) as usize;
             faults.push(DiskFault::Subst(p, HOSTILE[choose("subst_c", 11) as usize]));
+        }
+        // digit-to-digit damage inside the structural fields (dimensions, column
+        // pointers, row indices, cone list), where a flipped bit still parses
+        let st = structural_digits(&bytes);
+        if !st.is_empty() {
+            for _ in 0..30 {
+                let p = st[choose("struct_at", st.len() as u32) as usize];
+                faults.push(DiskFault::BitFlip(p, choose("struct_bit", 4) as u8));
+            }
+            // the first entries of the arrays are the rarest to be hit by position
+            for k in st.iter().filter(|&&k| k > 0 && bytes[k - 1] == b'[').take(6) {
+                faults.push(DiskFault::BitFlip(*k, choose("struct_bit0", 3) as u8));
+            }
         }
     }
     for _ in 0..2 {
